@@ -1,0 +1,37 @@
+package mpb
+
+import "sync"
+
+// barWaitGroup counts the bars (and their shutdown listeners) that are still
+// running. It is used like a sync.WaitGroup, but unlike sync.WaitGroup it
+// tolerates Add racing with Wait while the count is zero, which is what
+// (*Progress).Add racing with (*Progress).Wait amounts to: sync.WaitGroup
+// panics with "WaitGroup is reused before previous Wait has returned" then.
+type barWaitGroup struct {
+	mu   sync.Mutex
+	n    int
+	zero *sync.Cond
+}
+
+func (g *barWaitGroup) Add(delta int) {
+	g.mu.Lock()
+	g.n += delta
+	if g.n == 0 && g.zero != nil {
+		g.zero.Broadcast()
+	}
+	g.mu.Unlock()
+}
+
+func (g *barWaitGroup) Done() { g.Add(-1) }
+
+// Wait blocks until the count is zero.
+func (g *barWaitGroup) Wait() {
+	g.mu.Lock()
+	if g.zero == nil {
+		g.zero = sync.NewCond(&g.mu)
+	}
+	for g.n != 0 {
+		g.zero.Wait()
+	}
+	g.mu.Unlock()
+}
